@@ -458,6 +458,11 @@ func (cs *clientStream) doHttpCall(transport http.RoundTripper, req *http.Reques
 		var sz int32
 		sz, rErr = readSizePreface(reply.Body)
 		if rErr != nil {
+			if rErr == io.EOF {
+				// every response ends with a trailer frame; a body that ends
+				// before it was cut short, so the call must not look successful
+				rErr = io.ErrUnexpectedEOF
+			}
 			return
 		}
 		if sz < 0 {
